@@ -155,12 +155,10 @@ class Engine:
             ast.increment_lineno(tree, func.__code__.co_firstlineno - tree.lineno)
         except Exception:
             pass
-        if isinstance(tree, ast.AsyncFunctionDef):
-            raise Unsupported("async def")
         self.tree = tree
         self.globals = getattr(func, "__globals__", {})
         if inner:
-            found = [n for n in ast.walk(tree) if isinstance(n, ast.FunctionDef) and n.name == inner]
+            found = [n for n in ast.walk(tree) if isinstance(n, (ast.FunctionDef, ast.AsyncFunctionDef)) and n.name == inner]
             if not found:
                 raise Unsupported("inner function %s not found" % inner)
             self.tree = found[0]
@@ -237,7 +235,9 @@ class Engine:
             return self.do_try(s, st)
         if isinstance(s, ast.For):
             return self.do_for(s, st)
-        if isinstance(s, ast.FunctionDef):
+        if isinstance(s, (ast.FunctionDef, ast.AsyncFunctionDef)):
+            # a local coroutine function is analysed as if its body ran when it is called: the *sequentialised* behaviour (what happens, in
+            # which order, once the awaited values arrive) is what trace contracts speak about
             if any(isinstance(n, (ast.Yield, ast.YieldFrom)) for n in ast.walk(s)):
                 st.bind(s.name, Unknown(s.name))
             else:
@@ -259,7 +259,7 @@ class Engine:
             for c in cur:
                 out += self.block(s.body, c)
             return out
-        if isinstance(s, (ast.Pass, ast.Import, ast.ImportFrom, ast.Global, ast.Delete)):
+        if isinstance(s, (ast.Pass, ast.Import, ast.ImportFrom, ast.Global, ast.Nonlocal, ast.Delete)):
             return [(st, "next", None)]
         if isinstance(s, ast.Assert):
             return [(a, "next", None) if k == "val" else (a, "raise", v) for a, k, v in self.ev(s.test, st)]
@@ -525,6 +525,15 @@ class Engine:
                     return Const(eq if isinstance(e.ops[0], ast.Eq) else not eq)
                 return Unknown(ast.unparse(e))
             return self.ev_seq([e.left] + list(e.comparators), st, cmp)
+        if isinstance(e, ast.Await):
+            out = []
+            for a, k, v in self.ev(e.value, st):
+                if k != "val":
+                    out.append((a, k, v))
+                    continue
+                out.append((a.fork(), "val", Unknown("await " + (v.text if isinstance(v, Unknown) else "?"))))
+                out.append((a.fork("L%d.await-raises" % e.lineno), "raise", ExcV((), label="*")))     # the awaited value failed
+            return out
         if isinstance(e, ast.IfExp):
             return self.branch(e.test, st, lambda a: self.ev(e.body, a), lambda a: self.ev(e.orelse, a), "L%d.ifexp" % e.lineno)
         if isinstance(e, (ast.BinOp,)):
